@@ -980,23 +980,41 @@ func localsParams(prog *Program, pkg *packages.Package, fi *FuncInfo, node ast.N
 // findCallSite locates the n-th call (source order) of a callee named like "gen.Assign" or "Assign".
 // findCallSites: all calls matching "name#n" (the n-th) or "name#*" (every call of that name)
 func findCallSites(prog *Program, fi *FuncInfo, at string) []ast.Node {
-	if !strings.HasSuffix(at, "#*") {
-		if n := findCallSite(prog, fi, at); n != nil {
-			return []ast.Node{n}
-		}
-		return nil
+	if out := findCallSitesMatching(prog, fi, at, false); len(out) > 0 {
+		return out
 	}
-	name := strings.TrimSuffix(at, "#*")
-	var out []ast.Node
-	for _, c := range prog.expansion(fi).calls {
-		if ce := c.node.(*ast.CallExpr); callName(ce) == name {
-			out = append(out, ce)
-		}
-	}
-	return out
+	// no call is written exactly like that: the variable the call goes through may have been renamed
+	// (`source.Type.findAllFields` -> `fieldSource.Type.findAllFields`). Sites are then matched by everything after the
+	// first element of the selector chain. Only used when the exact spelling matches nothing.
+	return findCallSitesMatching(prog, fi, at, true)
 }
 
-func findCallSite(prog *Program, fi *FuncInfo, at string) ast.Node {
+func siteNameMatches(ce *ast.CallExpr, name string, loose bool) bool {
+	cn := callName(ce)
+	if cn == name {
+		return true
+	}
+	if !loose {
+		return false
+	}
+	i, j := strings.Index(name, "."), strings.Index(cn, ".")
+	if i < 0 || j < 0 {
+		return false
+	}
+	return name[i:] == cn[j:] && strings.Count(name, ".") == strings.Count(cn, ".")
+}
+
+func findCallSitesMatching(prog *Program, fi *FuncInfo, at string, loose bool) []ast.Node {
+	if strings.HasSuffix(at, "#*") {
+		name := strings.TrimSuffix(at, "#*")
+		var out []ast.Node
+		for _, c := range prog.expansion(fi).calls {
+			if ce := c.node.(*ast.CallExpr); siteNameMatches(ce, name, loose) {
+				out = append(out, ce)
+			}
+		}
+		return out
+	}
 	name, n := at, 1
 	if i := strings.Index(at, "#"); i >= 0 {
 		name = at[:i]
@@ -1004,10 +1022,10 @@ func findCallSite(prog *Program, fi *FuncInfo, at string) ast.Node {
 	}
 	count := 0
 	for _, c := range prog.expansion(fi).calls {
-		if ce := c.node.(*ast.CallExpr); callName(ce) == name {
+		if ce := c.node.(*ast.CallExpr); siteNameMatches(ce, name, loose) {
 			count++
 			if count == n {
-				return ce
+				return []ast.Node{ce}
 			}
 		}
 	}
